@@ -516,10 +516,28 @@ def run(chk, replay=None):
     if not chk.quick:
         pairs += [("ReadCd", "Read12"), ("PersistentReserveOut", "ModeSense10")]
     nsched = 0
-    for a, b in pairs:
-        if a not in refs or b not in refs:
-            continue
-        run_ = Runner([program(refs[a]), program(refs[b])])
+    # two threads, each with its OWN command, executing on ONE ISCSIDevice (over the stand-in binding; the target answers
+    # TEST UNIT READY with CHECK CONDITION and INQUIRY with GOOD): each thread sees the completion of its own command
+    from ..core import bindings as _b
+    _fs, _fi = _b.install(True, True)
+    _SENSE = bytes([0x70, 0, 6, 0, 0, 0, 0, 10, 0, 0, 0, 0, 0x29, 0, 0, 0, 0, 0])
+    _fi.reset(lambda c_, o_, i_: (2, _SENSE) if c_[0] == 0 else (0, None))
+    _dev = mod("pyscsi.pyiscsi.iscsi_device").ISCSIDevice("iscsi://h/iqn.shared/0", "iqn.i")
+
+    def on_device(name, *args):
+        def p():
+            cmd = cmds.klass(name)(getattr(_dev.opcodes, {"TestUnitReady": "TEST_UNIT_READY", "Inquiry": "INQUIRY"}[name]), *args)
+            try:
+                _dev.execute(cmd)
+                out = "ok"
+            except Exception as ex:
+                out = type(ex).__name__
+            return (out, bytes(cmd.cdb), len(cmd.datain))
+        return p
+    jobs = [(a, b, program(refs[a]), program(refs[b])) for a, b in pairs if a in refs and b in refs]
+    jobs.append(("TestUnitReady on a shared ISCSIDevice", "Inquiry on a shared ISCSIDevice", on_device("TestUnitReady"), on_device("Inquiry")))
+    for a, b, prog_a, prog_b in jobs:
+        run_ = Runner([prog_a, prog_b])
         (n1, iso1), (n2, iso2) = run_.measure(0), run_.measure(1)
         P = "1" if chk.quick else "2"
         grid = "3" if chk.quick else "6"
@@ -532,14 +550,14 @@ def run(chk, replay=None):
         bad = 0
         for sg, res in zip(scheds, run_.run_many(scheds)):
             nsched += 1
-            for t, (iso, r) in enumerate(((iso1, refs[a]), (iso2, refs[b]))):
+            for t, (iso, rname) in enumerate(((iso1, a), (iso2, b))):
                 if res[t] != iso:
                     bad += 1
-                    chk.violation({"clause": "ThreadIsolation", "cls": r.name, "other": (b if t == 0 else a), "field": "",
+                    chk.violation({"clause": "ThreadIsolation", "cls": rname, "other": (b if t == 0 else a), "field": "",
                                    "detail": {"schedule": sg, "thread": t + 1,
                                               "result": repr(res[t])[:300], "isolated": repr(iso)[:300]},
                                    "what": "thread result differs from its isolated result"},
-                                  dedup=("ThreadIsolation", r.name, (b if t == 0 else a)))
+                                  dedup=("ThreadIsolation", rname, (b if t == 0 else a)))
         ev.case(("threads", a, b, len(scheds)))
         ev.cov.setdefault("schedules", []).append({"pair": [a, b], "yield_points": [n1, n2], "schedules": len(scheds),
                                                    "broken": bad})
